@@ -151,6 +151,11 @@ class KernelModel:
     def _check_structure(self):
         import loopy as lp
         probs = []
+        seen = set()
+        for a in self.k.args:
+            if a.name in seen:
+                probs.append(f"kernel has more than one argument named {a.name}")
+            seen.add(a.name)
         for name, ws in self.writers.items():
             if len(ws) != 1:
                 probs.append(f"variable {name} has {len(ws)} writers")
